@@ -131,7 +131,7 @@ Proof.
         -- intros H. apply g5 in H. lia.
         -- intros [_ [_ H]]. discriminate.
       * rewrite U by auto. rewrite g5. split; intros [A B]; split; auto; lia.
-    + intros o H. destruct (Nat.eqb_spec o n); [subst o; apply g5 in H; lia|]. rewrite U by auto. auto.
+    + intros o Ho Hk. destruct (Nat.eqb_spec o n); [subst o; rewrite Un; reflexivity|]. rewrite U in * by auto. apply g5'; auto; lia.
     + intros o H. destruct (Nat.eqb_spec o n); [subst o; apply g6 in H; congruence|]. rewrite U by auto. auto.
     + exact g6'.
     + intros o k Hn Hk Ha Hd. destruct (Nat.eqb_spec o n); [subst o; rewrite Un in Hk; discriminate|]. rewrite U in * by auto.
@@ -206,7 +206,7 @@ Proof.
       destruct (Nat.eqb_spec x o).
       * subst. rewrite F. split; [intros _; auto|intros _; right; left; auto].
       * rewrite E by auto. rewrite g5. split; [intros [X|[X|[]]]; [auto|congruence]|intros X; left; auto].
-    + intros x Hx. destruct (Hid x) as [_ [B _]]. rewrite B. apply in_app_iff in Hx. destruct Hx as [Hx|[Hx|[]]]; [auto|subst; auto].
+    + intros x Hx Hkx. destruct (Hid x) as [A [B _]]. rewrite B. rewrite A in Hkx. auto.
     + intros x Hx. destruct (Hid x) as [_ [_ [C _]]]. rewrite C. auto.
     + destruct g6' as [N1 N2]. split; auto. apply NoDup_snoc; auto.
     + intros x k Hn Hkx Hax Hdx. destruct (Hid x) as [A [B [C [E _]]]]. rewrite A in Hkx. rewrite B in Hdx.
